@@ -77,7 +77,7 @@ def g_rt_mir(ctx):
 
 def g_rt_syn(ctx):
     t = _rt_trees(ctx)
-    return [rules_rt.rule_uf(t), rules_rt.rule_sib(t), rules_rt.rule_prune(t), rules_rt.rule_nav(t)]
+    return [rules_rt.rule_uf(t), rules_rt.rule_sib(t), rules_rt.rule_prune(t), rules_rt.rule_nav(t), rules_rt.rule_leaf(t)]
 
 
 def g_prune_use(ctx):
@@ -167,7 +167,7 @@ RULE_GROUP = {
     "M-DIGEST": "cc_digest", "M-PANIC": "cc_diag", "M-LINES": "cc_diag", "M-LOCS": "cc_diag", "M-DET": "cc_det", "M-PAR": "cc_det", "M-DIRTAINT": "cc_det",
     "M-FUNCDOM": "cc_misc", "M-EMIT": "cc_misc", "M-DETRT": "rt_det", "T-X": "x", "T-DET": "x", "T-TYPECHECK": "typecheck",
     "M-MAPFREE": "rt_mir", "M-FREEZE": "rt_mir", "M-UNSAFE": "rt_mir", "M-CBORDER": "rt_mir", "M-LEN": "rt_mir", "M-SIZE": "rt_mir",
-    "M-BAL": "rt_mir", "M-SYM": "rt_mir", "M-KAHN": "rt_mir", "M-UF": "rt_syn", "S-SIB": "rt_syn", "S-PRUNE": "rt_syn", "S-NAV": "rt_syn",
+    "M-BAL": "rt_mir", "M-SYM": "rt_mir", "M-KAHN": "rt_mir", "M-UF": "rt_syn", "S-SIB": "rt_syn", "S-PRUNE": "rt_syn", "S-NAV": "rt_syn", "S-LEAF": "rt_syn",
     "T-API": "api", "T-ALLOC": "api", "T-ENUM": "api",
 }
 
@@ -190,7 +190,7 @@ PROPERTIES = {
     "C03": {"rules": ["T-SEMI", "T-MOVE", "T-CANON", "T-LOOP", "T-INS", "T-DIAG", "T-AGE"], "level": "translation_validation"},
     "C04": {"rules": ["T-FAM", "T-INS", "T-MOVE", "T-CANON", "T-DIAG", "T-DIRTY", "T-API", "T-ENUM", "T-MOR"], "level": "translation_validation"},
     "C05": {"rules": ["T-API", "T-INS", "M-UF"], "level": "other"},
-    "C08": {"rules": ["S-SIB", "S-PRUNE", "T-PRUNE-USE", "M-FREEZE", "M-UNSAFE", "M-MAPFREE", "M-CBORDER"], "level": "other"},
+    "C08": {"rules": ["S-SIB", "S-PRUNE", "S-LEAF", "T-PRUNE-USE", "M-FREEZE", "M-UNSAFE", "M-MAPFREE", "M-CBORDER"], "level": "other"},
     "C14": {"rules": ["M-FREEZE", "M-UNSAFE", "M-MAPFREE", "M-CBORDER", "M-LEN", "M-SIZE", "M-BAL", "S-NAV"], "level": "other"},
     "C18": {"rules": ["M-SYM", "M-KAHN", "T-MOR"], "level": "other"},
     "C06": {"rules": ["T-ALLOC", "M-FUNCDOM", "T-DIRTY", "T-MOVE", "T-CANON", "S-PRUNE"], "level": "other"},
